@@ -53,6 +53,14 @@ class CondQueries:
             no_to = z3.And(*[z3.Not(S[f"in.timeout.{t}"]) for t in W if f"in.timeout.{t}" in S.pre])
             self.stuck["A3 without any timeout, notify() did not wake exactly one waiter"] = \
                 z3.And(S["g.notified"], no_to, _popcount(ret_true) != 1)
+            # the full reading of "does wake one if some waiter's timeout is not expiring": other waiters may time out
+            # (or be interrupted) at any instant around the notify; a registered waiter that neither has a timeout
+            # nor was interrupted must not be left asleep by a completed notify() that found sleepers
+            steady = [z3.And(z3.Not(S[f"in.timeout.{t}"]) if f"in.timeout.{t}" in S.pre else z3.BoolVal(False),
+                             S[f"g.ret.{t}"] != 3) for t in W]
+            self.stuck["A3 notify() completed while a waiter without timeout was asleep, yet no waiter was woken "
+                       "(the notification was consumed by a waiter that timed out at the same time)"] = \
+                z3.And(S["g.notified"], _popcount(ret_true) == 0, z3.Or(*steady))
             F = [t for t in sc.sys.threads if t.name == "F"][0]
             self.stuck["A2 notify() itself never returned"] = S[F.pcvar] != z3.BitVecVal(END, 8)
         self.witness = z3.And(sc.all_ended(), z3.Or(*ret_true)) if mode == "final_notify_all" else \
